@@ -27,6 +27,7 @@ def run(ctx):
     from . import simrules
     simrules.run_records_rule(ctx, 'C18.k', floor=10)
     simrules.unsigned_digit_arrays_rule(ctx, 'C18.n')
+    simrules.key_shapes_from_running_operations_rule(ctx, 'C18.o')
     _int64_guard_rule(ctx, ctx.repo)
     from . import c17 as _c17
     _c17._rows_from_per_shot_sequence(ctx, repo := ctx.repo, rid='C18.l')
